@@ -27,6 +27,7 @@ fi
 rc=0
 for p in "${props[@]}"; do
   (cd "$W/verif" && VERIF_ROOT="$W/verif" ./run "$p" "$tier" >"$W/$p.log" 2>&1; echo $? >"$W/$p.rc")
-  grep -E "^(VIOLATION|KNOWN-FINDING|INTERNAL|  signature|  what|C[0-9][0-9] )" "$W/$p.log" | head -${MUTANT_LINES:-14}
+  grep -E "^(VIOLATION|INTERNAL|  signature|  what|C[0-9][0-9] )" "$W/$p.log" | head -${MUTANT_LINES:-14}
+  echo "   (known-finding lines: $(grep -c '^KNOWN-FINDING' "$W/$p.log"), violation lines: $(grep -c '^VIOLATION' "$W/$p.log"))"
   echo "== $p exit=$(cat "$W/$p.rc")"
 done
